@@ -11,7 +11,7 @@ AGG = {'FastOr', 'HeapOr', 'ParOr', 'ParHeapOr', 'FastAnd', 'ParAnd', 'HeapXor',
 TRF = {'FlipS', 'AddOffset', 'DenseRT', 'BitSetRT'}
 
 
-SER = {'Ser', 'Load', 'WriteFail', 'Freeze', 'FrozenRT', 'LoadLegal', 'DetachAll', 'Scribble', 'Ser64', 'Load64'}
+SER = {'Decode', 'MustRead', 'Adopt', 'Ser', 'Load', 'WriteFail', 'Freeze', 'FrozenRT', 'LoadLegal', 'DetachAll', 'Scribble', 'Ser64', 'Load64'}
 C05_CLAUSES = {'write-error', 'size-mismatch', 'returned-count', 'writers-differ', 'end-of-stream', 'read-error', 'bytes-consumed',
                'reader-position', 'failed-writer-not-reported', 'returned-more-than-written'}
 C06_CLAUSES = {'parse', 'cookie', 'offset-header-presence', 'chunk-count', 'keys', 'payload-order', 'cardinality-field',
@@ -20,6 +20,8 @@ C06_CLAUSES = {'parse', 'cookie', 'offset-header-presence', 'chunk-count', 'keys
 
 def serial_family(v):
     op, c, d = v['op'], v['clause'], v.get('detail')
+    if op in ('Decode', 'MustRead', 'Adopt'):
+        return 'C10'
     if op in ('Ser64', 'Load64'):
         return 'C18'
     if op in ('Freeze', 'FrozenRT'):
@@ -56,11 +58,14 @@ def family(op):
 
 
 BITS64 = False
+FUZZ = False
 
 
 def attribute(v):
     """Which property a recorded deviation belongs to (None = latent/structural, not a verdict)."""
     p = attribute32(v)
+    if FUZZ and p is not None and p not in ('C09', 'C14', 'C07', 'C08'):
+        return 'C10'   # in the untrusted-bytes traces every judgement about the adopted bitmap is C10's "genuine set" clause
     if BITS64 and p is not None and p != 'C18':
         # the 64-bit bitmap: everything except serialization is C17 (sharing defects also count for C07, which names the 64-bit counterparts)
         return 'C17+C07' if p == 'C07' else 'C17'
@@ -69,7 +74,7 @@ def attribute(v):
 
 def attribute32(v):
     c, op = v['clause'], v['op']
-    if c in ('content', 'result', 'panic', 'listing', 'not-a-union-of-atoms', 'aux'):
+    if c in ('content', 'result', 'panic', 'listing', 'not-a-union-of-atoms', 'aux', 'cardinality-mismatch', 'isempty-mismatch'):
         if op in SER:
             return serial_family(v)
         if c == 'panic' and isinstance(v.get('detail'), str) and v['detail'].startswith('hang'):
@@ -82,6 +87,8 @@ def attribute32(v):
             return 'C03'
         if op == 'Scribble':
             return 'C08'
+        if op in MUT:
+            return 'C02+C07'   # a bitmap that changes without being called no longer equals the replay of its own history
         return 'C07'
     if c in ('argument-slice-modified', 'result-aliases-input', 'sharing-witnessed'):
         return 'C07'
@@ -179,6 +186,8 @@ def c02(tier):
             {'kind': 'replay', 'model': M('hist_S7', 'hist', 'S7', depth=12, sim={'num': 300 if q else 6000, 'depth': 13, 'seed': 7}),
              'kinds': ALLKINDS[:8], 'sample': 0.25 if q else 0.5},
             {'kind': 'drive', 'profile': 'history', 'traces': 160 if q else 3000, 'steps': 50},
+            {'kind': 'replay', 'model': M('cow_S6', 'cow', 'S6', depth=8, sim={'num': 1500 if q else 30000, 'depth': 10, 'seed': 5}),
+             'kinds': ['chunky', 'keyspread', 'chunky', 'threshold'], 'sample': 0.1 if q else 0.4, 'extra': ['-keeprcp']},
         ],
     }
 
@@ -218,6 +227,7 @@ def c11(tier):
             {'kind': 'replay', 'model': M('agg_S4', 'agg', 'S4', maxlist=3), 'kinds': ['tiny', 'array', 'bitmap', 'run', 'chunky', 'top', 'mixed', 'keyspread'],
              'sample': 0.04 if q else 0.8},
             {'kind': 'drive', 'profile': 'aggregate', 'traces': 160 if q else 3000, 'steps': 40},
+            {'kind': 'replay', 'model': par_models()[0], 'kinds': ['chunks'], 'sample': 1.0, 'shards': 4},
         ],
     }
 
@@ -243,7 +253,10 @@ def c07(tier):
         'rule': 'every producer (Clone, static/in-place algebra, Flip, AddOffset, aggregates) followed by single-chunk writes on every participant; content of ALL slots compared with the specification after every call (OnlyTargetChanges); structural sharing alarms are turned into behavioural witnesses by a write probe',
         'assumptions': ASSUME_SET,
         'phases': [
-            {'kind': 'drive', 'profile': 'sharing', 'traces': 240 if q else 4000, 'steps': 60},
+            {'kind': 'replay', 'model': M('cow_S6', 'cow', 'S6', depth=8, sim={'num': 1500 if q else 30000, 'depth': 10, 'seed': 5}),
+             'kinds': ['chunky', 'keyspread', 'chunky', 'threshold'], 'sample': 0.25 if q else 0.5, 'extra': ['-keeprcp']},
+            {'kind': 'drive', 'profile': 'sharing', 'traces': 400 if q else 6000, 'steps': 60, 'extra': ['-minkeys', '3', '-cow']},
+            {'kind': 'drive', 'profile': 'sharing', 'traces': 160 if q else 2000, 'steps': 60},
         ],
     }
 
@@ -423,4 +436,15 @@ def c04(tier):
     }
 
 
-PLANS = {'C04': c04, 'C12': c12, 'C17': c17, 'C18': c18, 'C05': c05, 'C06': c06, 'C13': c13, 'C08': c08, 'C01': c01, 'C02': c02, 'C03': c03, 'C15': c15, 'C11': c11, 'C16': c16, 'C07': c07, 'C09': c09, 'C14': c14}
+def c10(tier):
+    q = tier == 'quick'
+    return {
+        'rule': 'structured corruptions (cookie, count, key order, cardinality field, run flags, offsets, unsorted/duplicate arrays, overlapping/adjacent/wrapping/zero runs, bitmap bits, trailing bytes, byte flips, random bytes, frozen header/typecode/count) and all truncation classes of valid streams of random shapes, plus the repository crash corpus, through 7 decode entry points with the input flush against PROT_NONE guard pages; outcome must be error or normal return, every proper prefix rejected, MustReadFrom = ReadFrom + panic iff invalid (RoaringSet.tla Decode/MustRead clauses); a decoded bitmap that validates is ADOPTED and must pass the query / iterator / algebra / re-serialization battery judged by RoaringSet, RoaringIter and RoaringSerial',
+        'assumptions': ASSUME_SET + ['out-of-bounds reads are observed with guard pages directly after (or before) the input, not proved absent', 'hang = no return within 20 s'],
+        'phases': [
+            {'kind': 'drive', 'cmd': 'fuzzdec', 'profile': 'fuzz', 'traces': 1600 if q else 40000, 'steps': 0, 'shards': 12},
+        ],
+    }
+
+
+PLANS = {'C04': c04, 'C10': c10, 'C12': c12, 'C17': c17, 'C18': c18, 'C05': c05, 'C06': c06, 'C13': c13, 'C08': c08, 'C01': c01, 'C02': c02, 'C03': c03, 'C15': c15, 'C11': c11, 'C16': c16, 'C07': c07, 'C09': c09, 'C14': c14}
